@@ -683,6 +683,26 @@ impl<'tcx> Cx<'tcx> {
                 DefKind::Const { .. } => {
                     // named constants with integer value (capacities)
                     let t = tcx.type_of(did).instantiate_identity().skip_norm_wip();
+                    if !matches!(t.kind(), ty::Uint(_) | ty::Int(_)) && tcx.generics_of(did).count() == 0 && did.is_local() && tcx.is_mir_available(did) {
+                        // aggregate constants (e.g. a named Range): export the small body that builds them
+                        let cbody = tcx.mir_for_ctfe(did);
+                        if cbody.basic_blocks.len() <= 4 {
+                            let env = TypingEnv::post_analysis(tcx, did);
+                            let mut plocals = Vec::new();
+                            for d in cbody.local_decls.iter() {
+                                plocals.push(self.ty(d.ty));
+                            }
+                            let pblocks: Vec<String> = cbody.basic_blocks.iter().map(|bb| self.block(cbody, bb, env)).collect();
+                            let _ = writeln!(
+                                out,
+                                "{{\"rec\":\"constbody\",\"path\":{},\"ty\":{},\"locals\":[{}],\"blocks\":[{}]}}",
+                                esc(&self.path(did)),
+                                self.ty(t),
+                                plocals.join(","),
+                                pblocks.join(",")
+                            );
+                        }
+                    }
                     if matches!(t.kind(), ty::Uint(_) | ty::Int(_)) && tcx.generics_of(did).count() == 0 {
                         if let Ok(v) = tcx.const_eval_poly(did) {
                             if let Some(s) = v.try_to_scalar_int() {
